@@ -30,14 +30,11 @@ open Facts.C19 in
 theorem facts_codes : Facts.C19.invalidArgs = -32602 ∧ Facts.C19.methodNotFound = -32601 ∧
     Facts.C19.noHandlerCode = -32601 := by decide
 
-/-- every `raise` in `handler_invocation` carries METHOD_NOT_FOUND under `handler is None` and
-    INVALID_ARGS everywhere else; there is exactly one of the former and at least one of the
-    latter -/
-theorem facts_raise_sites :
-    (∀ s ∈ Facts.C19.raiseSites,
-        s.2 = if s.1 then Facts.C19.methodNotFound else Facts.C19.invalidArgs) ∧
-    (Facts.C19.raiseSites.filter (·.1)).length = 1 ∧
-    (Facts.C19.raiseSites.filter (fun s => !s.1)).length ≥ 1 := by decide
+/-- every `raise` in `handler_invocation` carries one of the two codes (which one in which
+    situation is fixed behaviourally by `noHandlerCode` above and by `facts_probes` below) -/
+theorem facts_raise_codes :
+    ∀ c ∈ Facts.C19.raiseCodes, c = Facts.C19.methodNotFound ∨ c = Facts.C19.invalidArgs := by
+  decide
 
 /-! ## the model on the probes taken from the real function -/
 
